@@ -157,6 +157,35 @@ def gen_timing(rnd, n_per, kinds=None, Ns=(1, 2, 3, 5, 10, 30, 60), tag="tm"):
     return out
 
 
+def gen_systematic():
+    """Deterministic multi-step patterns, always part of the pool: (a) the session's own TestRequest is answered by every kind of
+    message other than a Heartbeat, early or late, and the peer then falls silent again: a second TestRequest after a full period,
+    the disconnect only after another one; (b) every kind of message crosses the session's own Logout (Logout() or Stop()) on the
+    wire before the peer's Logout answer arrives: no second Logout, logout event, context cancelled on the answer."""
+    out = []
+    for role in ("acceptor", "initiator"):
+        for N in (1, 5, 30):
+            T = N * 1000
+            tin = (N + max(1, N // 20)) * 1000
+            for ans in ("app", "unknown", "testreq", "resend", "hbt"):
+                for delay in (1, tin // 2):
+                    p = Peer()
+                    st = logged_on_prefix(role, N, p)
+                    st += [act("advance", ms=tin + tin // 10 + 1), act("advance", ms=delay), p(ans, id=[81], b=1, e=0),
+                           act("advance", ms=tin - tin // 10 - 2), act("advance", ms=tin // 5 + 3), act("advance", ms=tin + tin // 10 + 1)]
+                    out.append(dict(id="sys-%s-%d-answer-%s-%d" % (role[0], N, ans, delay), cfg=cfg(role, hbmin=1, hbmax=60, hbcfg=N, closems=1000), steps=st))
+            for call in ("llogout", "stop"):
+                for cross in ("hbt", "testreq", "app", "resend", "unknown"):
+                    for closems in (500, 20000):
+                        p = Peer()
+                        st = logged_on_prefix(role, N, p)
+                        st += [act("advance", ms=T // 3), act(call), p(cross, id=[82], b=1, e=0), act("advance", ms=100), p("logout"),
+                               act("advance", ms=300), act("advance", ms=closems + 10)]
+                        out.append(dict(id="sys-%s-%d-%s-crossed-by-%s-%d" % (role[0], N, call, cross, closems),
+                                        cfg=cfg(role, hbmin=1, hbmax=60, hbcfg=N, closems=closems), steps=st))
+    return out
+
+
 def gen_ids(rnd, n):
     """C14: TestReqID contents and positions."""
     out = []
@@ -165,6 +194,14 @@ def gen_ids(rnd, n):
             list(b"x" * 512), list(b"34=9"), list(b"\x02\x03"), list(b"=")]
     for _ in range(n):
         ids.append([rnd.choice([c for c in range(256) if c != 1]) for _ in range(rnd.randint(1, 64))])
+    # identifiers longer than a transport's read buffer, with the text "10=" around the buffer boundaries (counted from the start of
+    # the value and from the start of the message)
+    # (a reader that takes buffer-sized pieces of a long field sees a piece start at offset 4096 - len("112=") of the value, or
+    # 4096 - (bytes of the message before the value) if it counts from the start of the message: ~4096 - 75)
+    offs = [4091, 4092, 4093, 8188, 4096, 4095] + rnd.sample(list(range(4005, 4040)) + [4000, 4088, 4090, 4094, 8150, 8180, 8189, 8190, 8192, 12284], 4 + min(n // 50, 16))
+    for off in offs:
+        ids.append(list(b"y" * off + b"10=123" + b"z" * rnd.randint(0, 30)))
+    ids.append(list(b"q" * 6000))
     rnd.shuffle(ids)
     per = 12
     for i in range(0, len(ids), per):
@@ -267,7 +304,10 @@ def gen_prelogon(rnd, n):
                 else:
                     kw["integ"] = which
                 st.append(p("logon", **kw))
-                st += [act("advance", ms=hb * 1000 + hb * 100 + 1), act("advance", ms=(hb + 2) * 1000), p("hbt"), p("testreq", id=[65]),
+                # (the second period ends after a TestRequest would be due and before a disconnect would be: a session whose timers
+                # run although the Logon was refused is then in the state in which any inbound message makes it "logged on")
+                tin = (hb + max(1, hb // 20)) * 1000
+                st += [act("advance", ms=hb * 1000 + hb * 100 + 1), act("advance", ms=tin - hb * 1000 + tin // 10), p("hbt"), p("testreq", id=[65]),
                        p("resend", b=1, e=0), act("advance", ms=(hb + 2) * 2200), p("app"), p("resend", b=1, e=start)]
                 out.append(dict(id="pre-refused-%d-%s" % (j, which), cfg=cfg("acceptor", startseq=start), steps=st))
                 j += 1
@@ -394,6 +434,9 @@ def validate(run, traces, module="SessionTrace", mods=None):
             run.records += n
             run.states += res.distinct
             run.transitions += res.generated
+            se = split_lines(res, "SPECERR")
+            if se:
+                raise Inconclusive("records of %s are not what the trace specification expects: %s" % (path, json.dumps(se[:3])[:800]))
             seen = set()
             for r in split_lines(res, "REJECT"):
                 key = json.dumps(r)
@@ -414,6 +457,7 @@ def common_pool(run, rnd, quick):
     # limits whose lower bound is above 1 (and an upper bound below the usual one)
     scns += tlc_scenarios(run, "acceptor", "logon", 2 if quick else 3, keep=(150 if quick else 3000), rnd=rnd, hbmin=3, hbmax=5, hbcfg=4)
     scns += gen_core(rnd)
+    scns += gen_systematic()
     scns += gen_timing(rnd, 2 if quick else 25)
     scns += gen_ids(rnd, 10 if quick else 400)
     scns += gen_resend(rnd, 40 if quick else 1200)
@@ -490,6 +534,16 @@ def check(prop, tier, seed):
     # the repository's own integration tests, traced through the verif-tagged hooks and validated event by event
     import repo_tests
     rejects += repo_tests.check(run)
+    # the whole library end to end over TCP (acceptor + initiator + two real sessions + a faulty transport)
+    if prop in ("C06", "C07", "C08", "C09"):
+        import stack_checks
+        rejects += stack_checks.check(run, quick, seed)
+        run.assumptions_extra = [stack_checks.ASSUMPTION]
+    # the untimed histories of the pool over a real connection (real Acceptor / Initiator + session, raw TCP peer)
+    if prop in ("C06", "C07", "C10", "C14", "C15", "C16"):
+        import stack_checks
+        rejects += stack_checks.wire_check(run, quick, seed)
+        run.assumptions_extra = getattr(run, "assumptions_extra", []) + [stack_checks.WIRE_ASSUMPTION]
     mine = [r for r in rejects if r[0] == prop]
     others = {}
     for r in rejects:
@@ -508,7 +562,8 @@ def check(prop, tier, seed):
         seen.add(key)
         if len(run.violations) >= 12:
             break
-        run.violation(r, {"property": prop, "kind": "session", "reject": r, "scenario": find_scenario(scns, sid)})
+        import stack_checks
+        run.violation(r, stack_checks.replay_obj(prop, r) or {"property": prop, "kind": "session", "reject": r, "scenario": find_scenario(scns, sid)})
     if len(viol) > len(run.violations):
         run.notes.append("%d rejected steps in total for this property" % len(viol))
     for sc in scns[:2] + scns[ncommon:ncommon + 2]:
@@ -522,7 +577,7 @@ def check(prop, tier, seed):
         "the session is driven through a real DefaultHandler (ServeIncoming / Outgoing()) with the bundled memory store; inbound bytes are framed by the harness' own encoder",
         "observations are taken at quiescence (synctest.Wait) after every step; outbound messages are tokenised by an independent SOH/'=' splitter",
         "timer behaviour is bound at the level of the properties (window [T, T+T/10]), not the exact tick phase",
-    ]
+    ] + getattr(run, "assumptions_extra", [])
     rule = ("scenario = a history of inbound classes (valid/refused/damaged Logon, Logout, Heartbeat, TestRequest, ResendRequest, application, unknown), "
             "local calls (Send, Logout, Stop) and time advances, for both roles; sources: every history TLC explored in MCSession up to the "
             "configured depth (sampled), TLC -simulate histories of depth 7, and seeded generators (deadline timing, TestReqID bytes, resend "
